@@ -7,8 +7,8 @@ BASELINE = "cd /repo && cargo test --workspace --no-fail-fast --offline"
 CLAIMED = {
  "C01": dict(level="exploration", ref="DESIGN.md §2 C01",
     technique="deterministic simulation: seeded delivery schedules (chunking, EINTR, early EOF, hard errors, byte flips) over the std::io::Read seam, reference = direct parse of the delivered bytes",
-    text="Seeded simulation of a producer storing text and a consumer loading it through all six Read-based entry points under chunked, interrupted, cut and failing deliveries; after each load the printed tree must equal the bytes the source delivers, strict/tolerant agreement must hold, EINTR must be invisible, hard errors and invalid UTF-8 must surface as Err. Sampling, not proof: the right level for a property whose only schedule-dependent part is the reader seam.",
-    note="Trusted: std::io::Read::read_to_string, rowan, the harness's SimReader and text generators. The from_str clauses are covered as seeded sampling only."),
+    text="Seeded simulation of a producer storing text and a consumer loading it through all six Read-based entry points under chunked, interrupted, cut and failing deliveries, and (one case in twelve) through the eight from_file entry points over a real file that holds the whole text, a torn prefix, or is lost; after each load the printed tree must equal the bytes the source delivers, strict/tolerant agreement must hold, EINTR must be invisible, hard errors and invalid UTF-8 must surface as Err. Sampling, not proof: the right level for a property whose only schedule-dependent part is the reader seam.",
+    note="Trusted: std::io::Read::read_to_string, rowan, the harness's SimReader and text generators. The from_str clauses are covered as seeded sampling only. Sizes: up to 4 MiB through every entry point, one 17 MiB document through the two lossless readers; inputs of 4 GiB and more (rowan's u32 lengths) are out of reach."),
  "C19": dict(level="fault_enumeration", ref="DESIGN.md §2 C19",
     technique="deterministic simulation with enumerated link faults: every truncation offset and generated trailers per seeded message, checked against a reference state machine",
     text="For each seeded clear-signed message the link is cut after every character offset (enumerated), delivered without final newline and continued with generated trailers; each received text goes to strip_pgp_signature and is compared with a reference state machine, plus the direct safety clause that a payload presented as signed is the full payload.",
@@ -33,17 +33,17 @@ CLAIMED = {
 
  "C18": dict(level="exploration", ref="DESIGN.md §2 C18",
     technique="deterministic simulation of hash epochs: print / parse / re-print each typed value in three fresh threads whose RandomState keys are drawn from the run's PRNG through the interposed getrandom; table-driven codec checks for the seed-independent rows",
-    text="Claimed narrowly: PackageListEntry prints a HashMap, so its round trip depends on the process's hasher keys; the simulator makes those keys a scheduled, replayable choice and re-prints every value in a different hash epoch from the one that parsed it. The other 21 type rows are run as seeded table-driven checks (outcome cannot depend on a schedule).",
+    text="Claimed narrowly: PackageListEntry prints a HashMap, so its round trip depends on the process's hasher keys; the simulator makes those keys a scheduled, replayable choice and re-prints every value in a different hash epoch from the one that parsed it. The other 22 type rows are run as seeded table-driven checks (outcome cannot depend on a schedule).",
     note="Trusted: the interposed getrandom symbol as the only source of RandomState keys (self-tested at start-up); canonical extras order = sorted by key."),
  "C20": dict(level="exploration", ref="DESIGN.md §2 C20",
     technique="deterministic simulation of the persist/restart/reload cycle across hash epochs: generated typed documents parsed, printed, re-parsed under fresh hasher keys and re-printed; field-wise comparison with the lossless reader via an independent reference relation reader; structurally invalid variants must be rejected",
-    text="Each generated typed document goes through value -> text -> (new hasher keys) -> value -> text; values and prints must agree, the typed fields must carry what the lossless reader shows for the same text (relation fields compared structurally with a reference reader), and structurally invalid variants (no/two source paragraphs, paragraph of neither kind, missing mandatory field) must be rejected.",
-    note="Trusted: field tables and generators (gen/typed.rs), the reference relation reader. Rejection of well-formed input is counted, not judged (that is C03/C10)."),
+    text="Each generated typed document goes through value -> text -> (new hasher keys) -> value -> text; values and prints must agree, the typed fields must carry what the lossless reader shows for the same text (relation fields compared structurally with a reference reader), text fields line by line, re-serialised lists modulo whitespace; a document generated from the field tables must have a typed value at all (clause wellformed-rejected; only the lossy relation reader's rejections are exempt), and structurally invalid variants (no/two source paragraphs, paragraph of neither kind, missing mandatory field) must be rejected.",
+    note="Trusted: field tables and generators (gen/typed.rs), the reference relation reader. Rejections by the lossy relation reader are counted, not judged (that is C10)."),
 
  "C15": dict(level="exploration", ref="DESIGN.md §2 C15",
-    technique="deterministic simulation of accessor sessions: seeded schedules of view creation (aliasing views of one paragraph), setter / clearing-setter / getter calls from a 168-row accessor table and restarts; oracle = reference codecs + C04 list model + locality diff + strict re-read",
-    text="Views of control, apt, buildinfo, copyright and DEP-3 paragraphs are created as aliases into one tree at scheduled times; setters from the accessor table are called in seeded sequences through one view and read back through every live view and a fresh one; the C04 list model demands exactly one field with the documented name holding the reference encoding (replaced in place or appended, removed when cleared), the locality diff demands that nothing else moves, the printed text must re-read; at the start every getter is compared with the reference reading of the raw field.",
-    note="Trusted: the accessor table (field names, separators, yes/no spelling written from the Debian field definitions) and reference codecs. Changes has one setter and no paragraph access: not covered here."),
+    technique="deterministic simulation of accessor sessions: seeded schedules of view creation (aliasing views of one paragraph), setter / clearing-setter / getter calls from the accessor table (about 170 rows), a view's own wrap_and_sort followed by a setter, and restarts; oracle = reference codecs + C04 list model + locality diff + strict re-read",
+    text="Views of control, apt, buildinfo, copyright and DEP-3 paragraphs are created as aliases into one tree at scheduled times; setters from the accessor table are called in seeded sequences through one view and read back through every live view and a fresh one; the C04 list model demands exactly one field with the documented name holding the reference encoding (replaced in place or appended, removed when cleared), the locality diff demands that nothing else moves, the printed text must re-read; at the start every getter is compared with the reference reading of the raw field, Control::source()/binaries() and the copyright lookups (iter_licenses, find_license_by_name, find_files) with reference lookups.",
+    note="Trusted: the accessor table (field names, separators, yes/no spelling written from the Debian field definitions) and reference codecs. Changes (one setter, no paragraph access) is covered through its getters on generated text, get_pool_path and set_format."),
 
  "C11": dict(level="exploration", ref="DESIGN.md §2 C11",
     technique="deterministic simulation of relation-editing sessions: seeded schedules over a root handle and entry/relation handles acquired at different times (freshness tracked across re-rooting operations), list-of-lists model + independent reference relation reader + strict re-parse + lexical separator checks after every judged step",
